@@ -55,8 +55,18 @@ def _recv_ok_partial(evs):
     return None
 
 
+def _mc(run):
+    """algorithm-layer protocol model: deadlock freedom after teardown + success invariants, all interleavings"""
+    from vlib import Inconclusive
+    cfg = "Protocol.cfg" if run.thorough else "Protocol_quick.cfg"
+    run.tlc_mc("Protocol", cfg, label="alg/Protocol (current code): no deadlock after environment teardown; recv ok => complete; send ok => FIN", timeout=1500, xmx="12g")
+    r = run.tlc_mc("Protocol", "Protocol_pinned.cfg", label="sanity: pinned queue() without ctx must deadlock in state queue", expect_error=True)
+    if "Deadlock reached" not in r["out"] or 'sRecv = "queue"' not in r["out"]:
+        raise Inconclusive("Protocol_pinned.cfg did not produce the queue deadlock: the protocol model is vacuous")
+
+
 def check(run):
-    return syncfam.run_family(run, "C04", "faults", PFX, sig=_sig, text=_text, assumptions=ASSUME, level="fault_enumeration", witness=True,
+    return syncfam.run_family(run, "C04", "faults", PFX, mc=_mc, sig=_sig, text=_text, assumptions=ASSUME, level="fault_enumeration", witness=True,
                               drive_timeout=2400, selftests=[
         ("turn a failed Send after a fault into success", _ok_without_fin),
         ("turn a failed Receive without FIN into success", _recv_ok_partial)])
